@@ -14,12 +14,13 @@ Print Assumptions C12_send_prefix.
 
 (* A sequence of sends: the wire is the concatenation of the acknowledged
    encodings followed, after a failed send, by a prefix of that one - nothing
-   duplicated, reordered or fabricated. *)
+   duplicated, reordered or fabricated; every send after a failed one fails too and
+   writes nothing (the encoder keeps its error). *)
 Theorem C12_sends_wire : forall (B : Type) (bs : list (list B)) oracle wire oks,
   sends B true bs oracle = (wire, oks) ->
   exists acked partial rest,
     wire = concat acked ++ partial /\ bs = acked ++ rest /\
-    oks = repeat true (length acked) ++ (match rest with [] => [] | _ => [false] end) /\
+    oks = repeat true (length acked) ++ repeat false (length rest) /\
     match rest with [] => partial = [] | b :: _ => exists tail, b = partial ++ tail end.
 Proof. exact sends_wire. Qed.
 Print Assumptions C12_sends_wire.
